@@ -8,9 +8,10 @@ VARIABLES req, emitted
 gvars == <<cvars, req, emitted>>
 
 Seqs(S, n) == UNION {[1..k -> S] : k \in 0..n}
-ChainSet == IF Mode = "chains" THEN Seqs(Behaviours \ {"hang"}, MaxLen) \cup {<<"hang">>, <<"ok", "hang", "ok">>}
+ChainSet == IF Mode = "skel" THEN {<<>>} ELSE IF Mode = "chains" THEN Seqs(Behaviours \ {"hang"}, MaxLen) \cup {<<"hang">>, <<"ok", "hang", "ok">>}
             ELSE {<<"ok", "ok">>, <<"ok", "error">>}
-Reqs == IF Mode = "chains" THEN {[state |-> "create", sandbox |-> "other", spec |-> "linux", pid |-> 42]}
+Reqs == IF Mode = "skel" THEN {[kind |-> "skel", args |-> a, stdin |-> i, beh |-> b] : a \in SkelArgs, i \in SkelStdin, b \in SkelBeh}
+        ELSE IF Mode = "chains" THEN {[state |-> "create", sandbox |-> "other", spec |-> "linux", pid |-> 42]}
         ELSE {[state |-> s, sandbox |-> sb, spec |-> k, pid |-> p] : s \in States, sb \in SandboxKinds, k \in SpecKinds, p \in {0, 42}}
 
 GInit == /\ chain \in ChainSet /\ pos = 1 /\ acc = <<>> /\ seen = <<>>
